@@ -719,4 +719,80 @@ def summarize(results):
             tot[k] = tot.get(k, 0) + v
         c = r.get("case", {}).get("method")
         by[c] = by.get(c, 0) + 1
-    return {"operations": tot, "methods": by}
+    enum = {}
+    for r in results:
+        k = r.get("case", {}).get("enumerated")
+        if k:
+            enum[k] = enum.get(k, 0) + 1
+    return {"operations": tot, "methods": by,
+            "bounded_exhaustive": {
+                "definition": "all histories of <= 2 (quick) / 3 (thorough) "
+                              "compute(target) calls over a 3-step grid; "
+                              "every single fault placement (callable x "
+                              "step, field equation x call) followed by a "
+                              "retry; restart at every step - for one "
+                              "canonical model per continuing method",
+                "cases": enum}}
+
+
+# ---------------------------------------------------------------------------
+# bounded-exhaustive part: every history of up to three compute(target) calls
+# over a grid of three steps, and every single fault placement followed by a
+# retry, for one canonical model per continuing method
+
+_BASE = {"dt": 0.1, "epsrel": 1e-9, "coupling": "x", "alpha": 0.3,
+         "temperature": 0.5, "cutoff": 3.0, "zeta": 1.0, "hx": 1.2,
+         "hz": 0.4, "w": 2.0, "gamma": 0.2, "initial": "up",
+         "start_time": 0.35}
+
+CANONICAL = {
+    "tempo": dict(_BASE, dkmax=1, system="td", dissipation=True,
+                  unique=False, subdiv=None, act=0.25),
+    "mean_field": dict(_BASE, dkmax=1, nsys=2, unique=False, subdiv=None,
+                       kappa=0.3, g=0.5),
+    "pt_tebd": dict(_BASE, sites=3, pts="all", order=2, epsrel=1e-10,
+                    controls=True, start_step=0, tuple_site=True),
+}
+
+
+def enumerated_cases(tier):
+    import itertools
+    n = 3
+    out = []
+    maxlen = 2 if tier == "quick" else 3
+    for method, model in CANONICAL.items():
+        for length in range(1, maxlen + 1):
+            for targets in itertools.product(range(n + 1), repeat=length):
+                ops = [["compute", t] for t in targets] + [["get"]]
+                out.append({"method": method, "n": n, "model": model,
+                            "ops": ops, "enumerated": "targets"})
+    # single transient fault at every placement, then the retry
+    for name in ("hamiltonian", "gamma", "lindblad"):
+        for k in range(n):
+            out.append({"method": "tempo", "n": n,
+                        "model": CANONICAL["tempo"],
+                        "ops": [["arm_fault", name, "step", k],
+                                ["compute", n], ["get"], ["compute", n]],
+                        "enumerated": "fault"})
+    for name in ("hamiltonian", "hamiltonian1", "gamma", "gamma1",
+                 "lindblad", "lindblad1"):
+        for k in range(n):
+            out.append({"method": "mean_field", "n": n,
+                        "model": CANONICAL["mean_field"],
+                        "ops": [["arm_fault", name, "step", k],
+                                ["compute", n], ["get"], ["compute", n]],
+                        "enumerated": "fault"})
+    for call in range(1, 3 * n + 1):
+        out.append({"method": "mean_field", "n": n,
+                    "model": CANONICAL["mean_field"],
+                    "ops": [["arm_fault", "field_eom", "call", call],
+                            ["compute", n], ["get"], ["compute", n]],
+                    "enumerated": "fault"})
+    # restart of the chain at every step
+    rmodel = dict(CANONICAL["pt_tebd"], controls=False)
+    for k in range(n + 1):
+        out.append({"method": "pt_tebd", "n": n, "model": rmodel,
+                    "ops": [["compute", k], ["crash_restart"],
+                            ["compute", n], ["get"]],
+                    "enumerated": "restart"})
+    return out
